@@ -42,7 +42,7 @@ func runCLIMode(ctx context.Context, c *Case, m Mode, hcl bool, root string) (re
 		return
 	}
 	db.SetMaxOpenConns(1)
-	if _, err := populate(ctx, db, c.Cur.ddl(), c.Inserts); err != nil {
+	if _, err := populate(ctx, db, c.Cur.ddl(), c.Inserts, c.Cur.Extra); err != nil {
 		db.Close()
 		res.Skip = "populate: " + err.Error()
 		return
